@@ -4,7 +4,7 @@ from pipeline import *
 
 # (module, property, fraction of its quick plan used in the quick tier, used in quick tier?)
 SUBS = [("c01", "C01", 0.05, True), ("c02", "C02", 0.08, True), ("c14", "C14", 0.15, True), ("c09", "C09", 0.06, True), ("c05", "C05", 0.05, True),
-        ("c17", "C17", 0.05, False), ("c03", "C03", 0.08, False), ("c16", "C16", 0.05, False)]
+        ("c17", "C17", 0.05, False), ("c03", "C03", 0.08, False), ("c16", "C16", 0.015, False)]
 
 MACS = ["none", "FASTOR_USE_HADD", "FASTOR_MATMUL_OUTER_BLOCK_SIZE=1", "FASTOR_MATMUL_OUTER_BLOCK_SIZE=3", "FASTOR_MATMUL_INNER_BLOCK_SIZE=1",
         "FASTOR_MATMUL_INNER_BLOCK_SIZE=3", "FASTOR_MATMUL_INNER_BLOCK_SIZE=5", "FASTOR_TRANS_OUTER_BLOCK_SIZE=2", "FASTOR_TRANS_INNER_BLOCK_SIZE=4",
@@ -121,7 +121,7 @@ class C06(Check):
         for mod, pid, frac, inquick in SUBS:
             if ctx.tier == "quick" and not inquick:
                 continue
-            jobs.append((pid, mod, pid, frac if ctx.tier == "quick" else min(1.0, frac * 2.5), cfgs, None, None))
+            jobs.append((pid, mod, pid, frac if ctx.tier == "quick" else min(1.0, frac * 1.5), cfgs, None, None))
         sweep_tab = []
         only = os.environ.get("VERIF_C06_ONLY")            # experimentation: run one job only (e.g. "sweep-C16")
         for pid, mod, macs, filt, fq, ft in SWEEPS:
@@ -176,6 +176,11 @@ class C06(Check):
             sctx.work = os.path.join(ctx.work, label)
             os.makedirs(sctx.work, exist_ok=True)
             log("C06: %s (%d configurations)" % (label, len(jcfgs)))
+            if os.environ.get("VERIF_C06_DRY"):                  # sizing only: plan and codegen, no build
+                pl = sub.plan(sctx)
+                un = sub.units(sctx, pl, jcfgs[0])
+                log("DRY %s: plan %d, units/cfg %d, compilations %d" % (label, len(pl), len(un), len(un) * len(jcfgs)))
+                continue
             try:
                 r = sub.run_core(sctx)
             except ToolFailure as e:
